@@ -18,19 +18,24 @@ CFG = {
             "NewStyledString and the emulator pen. rt: random cell sequences and single-field transitions through "
             "both codecs. Round 2: encb (exact producer strings), decb (both string parsers on exact strings with the uniseg cluster table: half of all dec "
             "cells|ss cases incl. junk parameter texts, the strings of a third of the rt cases and of all rtl cases), rtl / encbl (cells with hyperlinks: "
-            "4 URLs incl. one with ; and non-ASCII, parameters a function of the URL). distinct = distinct op line",
+            "4 URLs incl. one with ; and non-ASCII, parameters a function of the URL). Round 3: decbl (NewStyledString with hyperlinks on exact strings: all rtl strings, "
+            "default styles with and without a link, 14 hand-made strings around the link state), genLong (strings of 4-8 kB, thorough 16 kB: every rune boundary of four "
+            "multi-rune graphemes on and next to the 4096-byte buffer boundaries of the parser's reader: rt cells|ss, decb cells|ss). distinct = distinct op line",
     "trusted_base": ["A-concat as the explicit hypothesis TextOK of the byte-level theorems: every grapheme is non-empty, starts with a rune >= 0x20 and is one "
                      "grapheme cluster (uniseg oracle cl) of the text that follows it; checked per case by the decb stream (real functions on the real "
                      "strings, cluster table from the real uniseg)",
-                     "the reader side of the ansi parser (bufio, UTF-8 decoding, Parser.print's look-ahead inside the buffer) is C02/C08's ParserIO model; "
-                     "here a Print swallows the oracle's cluster of the remaining runes. The automaton itself is C02's model (hand table proved equal to "
-                     "the regenerated one)",
+                     "the reader side of the ansi parser is C02/C08's ParserIO model (bufio fill loop, UTF-8 decoding, readRune, Parser.print's look-ahead over the buffer); "
+                     "round 3: composed with it (Props/C18Reader) for strings of Unicode scalar values delivered in one read, hypothesis Agrees (the byte-offset oracle "
+                     "of ParserIO = the oracle on the remaining runes); how ParseStyledString builds its reader is extracted (Gen.SgrCases.parseStyledReader). "
+                     "The automaton itself is C02's model (hand table proved equal to the regenerated one)",
                      "Spec.sgr (Spec/Sgr.lean, written from ECMA-48 / xterm ctlseqs) as the meaning of SGR; "
                      "shown / shownCaps (Model/Sgr.lean) as the terminal-level meaning of a vaxis Style",
                      "extractor cmd/C18 for labels / arities / producer call sequences (fails closed); the SGR templates it parses are no longer trusted: "
                      "every template is proved to be what its regenerated format string prints (Lemmas.SgrBytes.b_*)"],
     "assumptions": ["styles are well formed: colours built by IndexColor/RGBColor or default, attribute mask over the seven "
-                    "defined bits, underline style 0..5; hyperlinks are not in the model's Style (theorems are about cells without hyperlinks)",
+                    "defined bits, underline style 0..5; hyperlinks: cells carry a Link beside the Style (Model/SgrLinks); they come back through Encode / NewStyledString "
+                    "under LinksRestorable (no ; in parameters, none for the empty URL, equal parameters for neighbouring cells with equal URLs — false without it: "
+                    "roundtrip_ss_links_unrestricted_fails)",
                     "SGR parameters are < 2^63 (the ansi parser's int accumulation does not overflow)"],
     "level_text": "SGR codecs and producer/consumer agreement, on tokens and on BYTES: for all attribute-mask pairs (per-bit proof), all colours and "
                   "underline styles, all cell sequences: the sequences EncodeCells / StyledString.Encode / render write mean (under Spec.sgr) exactly "
@@ -43,13 +48,19 @@ CFG = {
                   "the canonical printing of the templates (format_strings_print_templates, delta_bytes_eq, encodeCells_bytes_eq), C02's parser model "
                   "reads every producible sequence back as exactly its parameter list (sgr_bytes_parse, composing csi_roundtrip), NewStyledString's own "
                   "Cut/Split/Atoi does too (sgr_bytes_split), hence ParseStyledString(EncodeCells cs) = cs and NewStyledString(Encode cs) = cs over "
-                  "List Nat (roundtrip_cells_bytes, roundtrip_ss_bytes, roundtrip_cross_bytes, producers_consumers_agree_bytes).",
-    "level_note": "Proved for all inputs on the model (70 theorems, axioms propext/Classical.choice/Quot.sound only). Fixed in /repo: F48, F35 (round 1), "
-                  "F118 (NewStyledString reads the legacy semicolon colour forms; witness of the old behaviour kept in Witness/F118), F119 (NewStyledString "
-                  "reads OSC 8 instead of turning it into cells), F121 (the encoders close a hyperlink still open at the end; ends_link_closed). Validated by correspondence only: that the byte-level model is the code (encb: exact "
-                  "producer strings; decb: both string parsers on exact strings incl. junk parameter texts, with the uniseg cluster table), grapheme "
-                  "segmentation (hypothesis TextOK), what each handled label does (the set of labels and arities is extracted). Outside the theorems: "
-                  "hyperlinks (the model's Style has no hyperlink fields; that graphemes and SGR styles survive hyperlinks and that NewStyledString "
-                  "restores them is an oracle on the real code, op rtl); cell widths (not in the property text; re-measured by the parsers).",
+                  "List Nat (roundtrip_cells_bytes, roundtrip_ss_bytes, roundtrip_cross_bytes, producers_consumers_agree_bytes). Round 3: the nine producer x consumer pairs as named forall-theorems "
+                  "(delta_{encodeCells,ssEncode,render}_{parseSGR,emuSgr,ssParse}: all wf styles = all 128x128 masks x all colour classes x all underline styles, both format "
+                  "variants, every capability setting via capStyle) and over bytes (delta_*_bytes); encoded_shows_* and the emulator round trip over bytes (Props/C18Terminal); "
+                  "hyperlinks at full strength: NewStyledString(Encode cs) = cs and NewStyledString(EncodeCells cs) = cs including URL and parameters (roundtrip_ss_links_full_bytes, roundtrip_cells_links_via_ss_full_bytes, hypothesis LinksRestorable = what the rtl oracle evaluates; "
+                  "negation without it proved from a witness); ParseStyledString with its reading side inside the model (reader_single_read, parseStyledIO_eq, "
+                  "roundtrip_cells_io: C02's ParserIO on the whole string in one read = the oracle model; reader_recognised: that is the reader the source builds).",
+    "level_note": "Proved for all inputs on the model (103 theorems, axioms propext/Classical.choice/Quot.sound only). Fixed in /repo: F48, F35 (round 1), "
+                  "F118, F119, F121 (round 2), F122 (round 3: ParseStyledString split a grapheme that straddled the parser's 4096-byte buffer; it now buffers the whole "
+                  "string; parse_chunked_cuts_cluster shows the old reader failing on the model). Validated by correspondence only: that the byte-level model is the code "
+                  "(encb / encbl: exact producer strings; decb: both string parsers on exact strings incl. junk parameter texts, with the uniseg cluster table, and the "
+                  "ParserIO-based reader model beside the oracle model on every decb cells string; decbl: NewStyledString with hyperlink fields), grapheme segmentation "
+                  "(hypotheses TextOK / Agrees), what each handled label does (the set of labels and arities is extracted). Outside the theorems: ParseStyledString on "
+                  "invalid UTF-8 (C02's streams), hyperlinks through ParseStyledString (it drops them: not in the property text), cell widths (not in the "
+                  "property text; re-measured by the parsers), whole rendered frames at the byte level (the pen delta is: delta_render_bytes).",
     "timeout": 1800,
 }
